@@ -505,7 +505,24 @@ def do_check(prop, tier, seed, scale=1.0, jobs=NCPU):
         if "asan" not in bins:
             bins.update(build(["asan"], quiet=True))
 
-        # ---- violations: group by key, gate, classify, shrink
+        # ---- a worker that died without a CRASH line (killed outright, or a runtime that exits on its own): the
+        # plan is re-executed alone, in its own variant and under asan, to obtain an attributable verdict; if
+        # neither gives one the check is broken, not silent
+        unknown = [x for x in total.crashes if x["key"].startswith("C00/crash/UNKNOWN")]
+        for x in unknown[:4]:
+            resolved = None
+            for v in dict.fromkeys([x["variant"], "asan"]):
+                text = gen_plan(bins[v], x["world"], x["mode"], seed, x["index"])
+                g, _ = exec_plans(bins[v], [text])
+                if g[0]["key"] and not g[0]["key"].startswith("C00/"):
+                    resolved = (v, g[0]); break
+            if resolved is None:
+                print(f"HARNESS-ERROR property={prop} run={x['index']} variant={x['variant']} world={x['world']} mode={x['mode']}: "
+                      f"a worker died without a crash line and the plan does not fail when executed alone; stderr tail: {x.get('stderr', '')[-600:]}")
+                return 2
+            x["key"] = resolved[1]["key"]; x["variant"] = resolved[0]; x["detail"] = resolved[1].get("detail", x["detail"])
+        total.crashes = [x for x in total.crashes if not x["key"].startswith("C00/crash/UNKNOWN")]
+
         by_key = {}
         for x in sorted(total.viols + total.crashes, key=lambda x: x["index"]):
             by_key.setdefault(x["key"], []).append(x)
